@@ -193,7 +193,8 @@ fn handle_posting_value(
                             }
                             val_pos_commodity
                         }
-                        None => settings.get_or_create_commodity(None)?,
+                        // opening position only: there is no conversion, use original unit
+                        None => settings.get_or_create_commodity(Some(u.0))?,
                     }
                 }
                 None => {
